@@ -1052,7 +1052,8 @@ class PyCdlib:
                                       dir_record)
                 offset += lenbyte
 
-                self._set_rock_ridge(rr)
+                if new_record.rock_ridge is None or new_record.rock_ridge.dr_entries.ce_record is None:
+                    self._set_rock_ridge(rr)
 
                 # Cache some properties of this record for later use.
                 is_symlink = new_record.is_symlink()
@@ -1124,6 +1125,9 @@ class PyCdlib:
                     new_record.rock_ridge.parse(con_block, False,
                                                 new_record.rock_ridge.bytes_to_skip,
                                                 True, new_record.file_identifier())
+                    # The Rock Ridge version can only be inferred once both the
+                    # Directory Record and the Continuation Entry were parsed.
+                    self._set_rock_ridge(new_record.rock_ridge.rr_version)
                     cdfp.seek(orig_pos)
                     block = self.pvd.track_rr_ce_entry(ce_record.bl_cont_area,
                                                        ce_record.offset_cont_area,
